@@ -334,7 +334,7 @@ impl<const B: Word> Repr<B> {
         let exp_adjust = if use_hexadecimal {
             exp + (signif_str.len() as isize - 1) * 4
         } else {
-            exp + signif_str.len() as isize - 1
+            exp + (signif_str.len() as isize - 1)
         };
         write!(&mut exp_str, "{}", exp_adjust)?;
         let exp_str = exp_str.as_str();
